@@ -265,6 +265,14 @@ func (self *Interpreter) infixHelper(lhs ast.AnalyzedExpression, rhs ast.Analyze
 	}
 
 	switch lhs.Type().Kind() {
+	case ast.NeverTypeKind:
+		// The left operand never yields a value (`({ return 7; }) || c`, `throw(..) + n`): evaluating it
+		// ends in an interrupt which is passed on; the right operand is not reached.
+		lhsVal, i := self.expression(lhs)
+		if i != nil {
+			return nil, nil, i
+		}
+		return lhsVal, lhsVal, nil
 	case ast.IntTypeKind:
 		var intRes int64
 
